@@ -5,7 +5,7 @@
    momentums confirming per-account prefixes of the pool in any content order, rollback of the frontier momentum
    (reorganisation), restart.  It mirrors verifier fromHash()/sequencer(), chain/account/{received,sequencer}.go,
    the mailbox push on confirmation (chain/momentum/ledger_store.go) and chain/account_pool.go. *)
-From ZV Require Import Prelude Ledger LedgerProofs Mailbox MailboxProofs.
+From ZV Require Import Prelude Ledger LedgerProofs Mailbox MailboxProofs MailboxSource.
 Open Scope Z_scope.
 
 (* The receiver rule has two regimes (verifier.ReceiverMismatchEnforcementHeight = E, compared by fromHash() with the height
@@ -146,3 +146,14 @@ Example C04_switch_over_example :
   map b_hash (receivers 1000 (blocks_of (run_node 3 genesis_node (firstn 10 ex_switch_events)))) = [1002; 1006] /\
   map b_hash (receivers_from 3 1000 (blocks_of (run_node 3 genesis_node (firstn 10 ex_switch_events)))) = [1006].
 Proof. vm_compute. repeat split; reflexivity. Qed.
+
+(* the receive decision the theorems above are about is the code: fromHash() then sequencer() of
+   verifier.accountBlockVerifier as translated from /repo's source by go2coq on every run; the send block found at the
+   acknowledged momentum, the received marker, the head of the inbox, the frontier and enforcement heights are inputs *)
+Theorem C04_receive_decision_is_the_source : forall t a h sendto received nextinline fh E (hdr : Z -> Z),
+  (forall x y, hdr x = hdr y -> x = y) ->
+  t = 3 \/ t = 5 ->
+  mbcode (src_recv_check t a h sendto received nextinline fh E hdr)
+  = recv_check (E <=? fh) a h sendto received nextinline.
+Proof. exact recv_check_is_source. Qed.
+
